@@ -2,5 +2,16 @@
 
 package main
 
+import (
+	common "github.com/PapaCharlie/go-restli/restlidata"
+)
+
 // the root module has no custom-typeref registry
 func phaseRegistry(n, iters int, stats map[string]int) {}
+
+func coldExtra() []probe {
+	return []probe{
+		{"CollectionMedata", `{"start":1}`, []string{"count", "links"}, func(d string) error { return decodeInto(d, new(common.CollectionMedata)) }},
+		{"CollectionMedata", `{"start":1,"count":2,"links":[]}`, nil, func(d string) error { return decodeInto(d, new(common.CollectionMedata)) }},
+	}
+}
